@@ -80,7 +80,7 @@ pub fn run(prop: &str, data: &[u8]) -> Option<(Value, Verdict)> {
         }
         "C18" => {
             let cuts = c02::normalise_cuts(rest, &cuts16(rest.len()));
-            let c = c18::Case { input: B(rest.to_vec()), cfg: h[0] & 127, cuts, asynch: h[0] & 128 != 0, pend: vec![h[1] & 1, (h[1] >> 1) & 1], faults: vec![((h[2] % 64) as usize, h[3] % 6, 1 + (h[3] >> 6))] };
+            let c = c18::Case { input: B(rest.to_vec()), cfg: h[0] & 127, cuts, asynch: h[0] & 128 != 0, pend: vec![h[1] & 1, (h[1] >> 1) & 1], faults: vec![((h[2] % 64) as usize, h[3] % 6, 1 + (h[3] >> 6))], skip: if h[1] & 4 != 0 { h[2] } else { 0 } };
             (json!(c), guarded(|| c18::check(&c)))
         }
         _ => return None,
